@@ -1217,6 +1217,45 @@ func c05DirectedDelete(root *vw.Rng, tr *vw.Trace, id string, undeleteInWindow b
 	vw.Stat("directed", 1)
 }
 
+// a blob is marked deleted while the cluster keeps working on ANOTHER blob (client writes, a re-replication with its
+// ChangeTract, reports, deliveries); then undelete and a read of the undeleted blob.
+func c05DirectedDeleteBusy(root *vw.Rng, tr *vw.Trace, id string) {
+	d := vc.NewDriver(root.Fork(9007), 4, []bool{true, false}, id)
+	defer d.Cl.Close()
+	h := newC05H(d, id)
+	h.newBlob(3)
+	h.newBlob(3)
+	d.Cl.S.SetAuto(false)
+	d.StartWrite(0, 0, 0, 80)
+	h.quiesce()
+	d.StartWrite(0, 1, 0, 60)
+	h.quiesce()
+	h.deleteBlob(0)
+	d.StartWrite(0, 1, 30, 70) // the other blob is written while blob 0 is marked deleted
+	h.quiesce()
+	if st := d.Cl.D.Tract(d.TractID(1, 0)); st.OK && len(st.Hosts) == 3 {
+		d.StartReplicate(1, 0, []int{int(st.Hosts[1])}) // ... and repaired
+		h.quiesce()
+	}
+	for i := 1; i <= 4; i++ {
+		h.reportAll(i, false)
+	}
+	for _, in := range h.soup {
+		h.deliver(in, false)
+	}
+	d.StartWrite(0, 1, 10, 20)
+	h.quiesce()
+	h.undeleteBlob(0)
+	d.StartRead(1, 0, 0, 80)
+	h.quiesce()
+	d.StartRead(1, 1, 0, 100)
+	h.quiesce()
+	h.sweep()
+	d.CheckAllReplicas()
+	h.finish(tr)
+	vw.Stat("directed", 1)
+}
+
 // reconstruction window: the destination reports its new piece while the RSEncode is outstanding
 // (pending pieces), with ordinary garbage before it in the report; then the commit.
 func c05DirectedPending(root *vw.Rng, tr *vw.Trace, id string, leaderChange bool) {
@@ -1704,6 +1743,7 @@ func TestVerifC05(t *testing.T) {
 		{"d-pending", func() { c05DirectedPending(root, tr, "d-pending", false) }},
 		{"d-pending-leader", func() { c05DirectedPending(root, tr, "d-pending-leader", true) }},
 		{"d-f5", func() { c05DirectedF5(root, tr, "d-f5") }},
+		{"d-delete-busy", func() { c05DirectedDeleteBusy(root, tr, "d-delete-busy") }},
 		{"d-rs-writes", func() { c05DirectedRSWrites(root, tr, "d-rs-writes") }},
 	}
 	for _, x := range dir {
